@@ -9,6 +9,7 @@ import (
         "github.com/m7913d/go-ntlm/ntlm"
 	"fmt"
 	"log"
+	"sync"
         "time"
 )
 
@@ -81,9 +82,25 @@ func (h *NTLMAuth) removeContext (session string) {
 type ntlmContext struct {
         session ntlm.ServerSession
 	h *NTLMAuth
+
+	// requests of one session may arrive concurrently: they are handled one at a time, and
+	// once an exchange is over the context refuses every request that still holds it
+	mu sync.Mutex
+	done bool
 }
 
 func (c *ntlmContext) Authenticate(authorisationEncoded string, r *auth.NtlmResponse) (err error) {
+	c.mu.Lock()
+	defer c.mu.Unlock()
+	if c.done {
+		return errors.New("NTLM auth sequence already finished: start with a new negotiate request")
+	}
+	defer func() {
+		if err != nil || r.Authenticated || r.NtlmMessage == "" {
+			c.done = true
+		}
+	}()
+
 	// the NTLM library panics on some malformed messages (payload offsets that wrap,
 	// truncated negotiate messages, missing session key): report an error instead of
 	// taking the whole authentication service down
